@@ -2,7 +2,7 @@ SPECIFICATION Spec
 CONSTANTS
   Part = "intpow"
   IntTypes <- TIntAll
-  MaxE = 24
+  MaxE = 15
   MaxN = 200
 INVARIANT IntPowMachineOK
 INVARIANT IntPowExact
